@@ -4,6 +4,7 @@
    find_lanelet_by_shape on the occupancy); that these agree with the geometry is C06. *)
 From Coq Require Import ZArith Bool List.
 From CR Require Import Model.Assign Proofs.Assign.
+From CR Require Import Model.AssignSrc Gen.Src_assign Proofs.SrcAssign.
 Import ListNotations.
 Open Scope Z_scope.
 
@@ -139,6 +140,27 @@ Proof.
   exact X.
 Qed.
 
+(* ---- the registry helpers are the source's: which id sets / assignment dicts _add_static_obstacle_to_lanelets,
+   _remove_static_obstacle_from_lanelets, _add_dynamic_obstacle_to_lanelets and _remove_dynamic_obstacle_from_lanelets add
+   an obstacle for, and discard it for, at which time step, is found by following their syntax trees on every run
+   (Gen/Src_assign.v, harness/props/c07_src.py).  Interpreted (Model/AssignSrc.v), the parsed table is the model's four
+   functions in every world and state, and everything that is added for is discarded for. *)
+Theorem C07_registry_helpers_are_source : forall W o s,
+  run_add_static src_registry o s = add_static_to_lanelets o s /\
+  run_remove_static src_registry o s = remove_static_from_lanelets o s /\
+  run_add_dynamic W src_registry o s = add_dynamic_to_lanelets W o s /\
+  run_remove_dynamic W src_registry o s = remove_dynamic_from_lanelets W o s.
+Proof.
+  intros W o s. exact (conj (src_add_static_is_model o s) (conj (src_remove_static_is_model o s)
+                        (conj (src_add_dynamic_is_model W o s) (src_remove_dynamic_is_model W o s)))).
+Qed.
+Theorem C07_registry_add_is_covered_by_remove : covered src_registry = true.
+Proof. exact src_registry_covered. Qed.
+Example C07_registry_check_nonvacuous :
+  covered {| rp_add_static := [IShape; ICenter]; rp_remove_static := [IShape]; rp_add_dyn_init := [IShape];
+             rp_add_dyn_pred := [DShape]; rp_remove_dyn_init := [IShape]; rp_remove_dyn_pred := [DShape] |} = false.
+Proof. exact uncovered_example. Qed.
+
 Print Assumptions C07_registries_inverse.
 Print Assumptions C07_registries_consistent.
 Print Assumptions C07_stored_is_lookup.
@@ -151,3 +173,6 @@ Print Assumptions C07_remove_never_fails.
 Print Assumptions C07_remove_clears.
 Print Assumptions C07_nonvacuous.
 Print Assumptions C07_unrepaired_static_refuted.
+Print Assumptions C07_registry_helpers_are_source.
+Print Assumptions C07_registry_add_is_covered_by_remove.
+Print Assumptions C07_registry_check_nonvacuous.
